@@ -477,8 +477,8 @@ register('C04', 'proof',
                       'ApplicationStartJobs.get_load_requests: the EXACT value (sum with multiplicities of the expected_load '
                       'of the pending commands per target) is not decided - only its domain and the lower bound "at least '
                       'each counted command"; `max(load_list)` instead of `sum(load_list)` satisfies both and is not refuted '
-                      '(the clause "at least the sum of any two distinct counted commands" is available in the engine - '
-                      'listsum facts - but its loop invariant is not written yet, contracts/wip_c04_starter_load_requests.txt)',
+                      '(the clause "at least the sum of any two distinct counted commands" is drafted and verifies, but is '
+                      'parked in contracts/wip_c04_starter_load_requests.txt until a mutant only it refutes is shown)',
                       'Starter.get_load_requests (sum over the application jobs in progress) is not under contract in this '
                       'group: drafted in contracts/wip_c04_starter_load_requests.txt (domain = union of the domains, value >= '
                       'each job\'s value; `max` instead of `sum` over the jobs would NOT be refutable by that lower bound '
